@@ -19,6 +19,21 @@ claim('C10', 'abstract interpretation of MIR over a finite ordering domain (exha
       'rustc front end + MIR; mirfacts; the rdv.absint interpreter and its std comparator semantics; the RxO table as transcribed in rules/C10.py; Durations normalised.',
       'DESIGN.md section 4 C10', category='proof')
 
+claim('C12', 'comparison-formula extraction (normalised relation + operand provenance) and must-pass-through / edge-cut path rules on MIR',
+      'Decides the shape of the lease rule, not durations: a participant reaches the removal list exactly on elapsed > lease(+tolerance) with '
+      'elapsed = now - last life sign and lease = advertised | default; every accepted announcement and every liveness notification refreshes the life sign; '
+      'the edge-triggered liveness channel is drained until empty; dispose removes immediately; timeout moves endpoints to the attic and rediscovery restores them; '
+      'the cleanup timer arm always re-arms. Behaviour over real time (cleanup period granularity) is not decided.',
+      'rustc front end + MIR; mirfacts; std Instant / mio timer semantics.',
+      'DESIGN.md section 4 C12')
+claim('C20', 'role-pair comparison consistency (normalised S?B relations over provenance terms) + must-pass-through path rules on MIR',
+      'Decides the structural necessary conditions: every comparison between the inclusive last-written sequence number and an exclusive acked-before frontier in '
+      'rtps::writer has the same strictness (S < B acked / S >= B pending); the pending set holds reliable proxies only and an empty one completes at once; '
+      'reader loss and every ACKNACK reach the waiter; the sync wait registers before sending and reports success only on the completion token; the async '
+      'future has no bare Pending. The timeout duration and promptness as durations are not decided.',
+      'rustc front end + MIR; mirfacts; role table (S: last_seq, wait_until; B: all_acked_before, reader_sn_state.base(), acked_before) taken from the field comments.',
+      'DESIGN.md section 4 C20')
+
 _pending = 'check not built yet in this revision (static rules designed in DESIGN.md section 4; implementation in progress)'
 for _p in ['C01', 'C02', 'C03', 'C04', 'C05', 'C06', 'C08', 'C09', 'C10', 'C11', 'C12', 'C14', 'C15', 'C16', 'C17', 'C18', 'C19', 'C20']:
     if _p not in CHECKS:
